@@ -2,6 +2,9 @@ import einx._src.tracer as tracer
 import numpy as np
 from collections import defaultdict
 import itertools
+import json
+import keyword
+import math
 from einx._src.util import pytree
 
 
@@ -448,7 +451,10 @@ def compile(object, return_code=False):
             return code[x]
         elif isinstance(x, str):
             # ################## str ##################
-            return Literal(f'"{x}"', block=code.root_block)
+            return Literal(json.dumps(x, ensure_ascii=False), block=code.root_block)  # Double-quoted literal with quotes, backslashes and control characters escaped
+        elif isinstance(x, float | np.floating) and not math.isfinite(x):
+            # ################## inf, nan ##################
+            return Literal(f'float("{float(x)}")', block=code.root_block)
         elif isinstance(x, int | float | np.integer | np.floating | bool):
             # ################## Numeric ##################
             return Literal(str(x), block=code.root_block)
@@ -593,12 +599,17 @@ def compile(object, return_code=False):
     # Assign names to variables
     variableid_to_name = {}
 
+    # Generated names must not be Python keywords ("as", "if", "in", ...) or names that are given out as hints ("np", "op", ...)
+    reserved_names = set(keyword.kwlist) | {name for names in name_hints.values() for name in names}
+
     def names():
         chars = [chr(i) for i in range(ord("a"), ord("z") + 1)]
         length = 1
         while True:
             for name in itertools.product(chars, repeat=length):
-                yield "".join(name)
+                name = "".join(name)
+                if name not in reserved_names:
+                    yield name
             length += 1
 
     names = names()
